@@ -7,6 +7,7 @@
 package roomsim
 
 import (
+	"crypto/ed25519"
 	"encoding/json"
 	"fmt"
 	"sort"
@@ -58,7 +59,15 @@ type room struct {
 	extraCreators bool
 }
 
+// pseudoDir is the sender-key directory of the run's room when that room is of
+// the pseudo-ID version: sender key (base64) -> user ID. One run at a time per
+// process.
+var pseudoDir map[string]string
+
 func uidFor(roomID spec.RoomID, sender spec.SenderID) (*spec.UserID, error) {
+	if u, ok := pseudoDir[string(sender)]; ok {
+		return spec.NewUserID(u, true)
+	}
 	return spec.NewUserID(string(sender), true)
 }
 
@@ -82,9 +91,22 @@ func newRoom(r *sim.Run, ver gmsl.RoomVersion) *room {
 		rm.servers = append(rm.servers, world.NewCompactServer(t, fmt.Sprintf("s%d.example", i), rm.now))
 	}
 	nu := t.Range(2, 5)
+	pseudoDir = nil
+	if ver == gmsl.RoomVersionPseudoIDs {
+		pseudoDir = map[string]string{}
+		r.Defer(func() { pseudoDir = nil })
+		r.Probe("pseudo_id_room")
+	}
 	for i := 0; i < nu; i++ {
 		s := rm.servers[i%ns]
-		rm.users = append(rm.users, user{id: fmt.Sprintf("@u%d:%s", i, s.Name), srv: s})
+		id := fmt.Sprintf("@u%d:%s", i, s.Name)
+		if pseudoDir != nil {
+			// users are known to the room by a per-room key; the directory maps it back
+			key := string(spec.SenderIDFromPseudoIDKey(ed25519.NewKeyFromSeed(t.Bytes(32))))
+			pseudoDir[key] = id
+			id = key
+		}
+		rm.users = append(rm.users, user{id: id, srv: s})
 	}
 	return rm
 }
